@@ -855,6 +855,19 @@ class Interp:
             return item in container
         if isinstance(container, str) and isinstance(item, str):
             return item in container
+        if isinstance(container, PyObj) and container.name == "iterator":
+            # S-PY: `x in iterator` advances the iterator until it finds x (or to its end): a later test sees only what is left
+            items, pos = container.attrs["items"], container.attrs["pos"]
+            while pos < len(items):
+                r = self.equals(items[pos], item)
+                pos += 1
+                if r is True:
+                    container.attrs["pos"] = pos
+                    return True
+                if r is not False:
+                    raise Unsupported("membership test on an iterator with symbolically-equal elements")
+            container.attrs["pos"] = pos
+            return False
         if isinstance(container, Obj) and isinstance(container.cls, RepoClass):
             _, m = container.cls.find(self, "__contains__")
             if m is not None:
@@ -881,6 +894,8 @@ class Interp:
         if isinstance(v, Obj):
             if name in v.f:
                 return v.f[name]
+            if name == "__dict__":
+                return v.f  # S-PY: the instance dictionary IS the object's attribute store
             if isinstance(v.cls, RepoClass):
                 if name == "_replace" and "NamedTuple" in {x.split(".")[-1] for x in v.cls.lib_base_names(self)}:
                     def _replace(ip2, **kw):
@@ -1293,6 +1308,12 @@ class Interp:
             return items if k == 0 else items[::-1]
         if isinstance(it, (list, tuple, set, frozenset)):
             return list(it)
+        if isinstance(it, PyObj) and it.name == "iterator":
+            # S-PY: a one-shot iterator (iter(xs), a generator): iterating it yields what is left and leaves it exhausted. (A consumer that stops early -
+            # any() / all() / next() on a generator expression - is executed eagerly here: it takes everything.)
+            rest = list(it.attrs["items"][it.attrs["pos"]:])
+            it.attrs["pos"] = len(it.attrs["items"])
+            return rest
         if isinstance(it, dict):
             return list(it.keys())
         if isinstance(it, str):
@@ -1375,6 +1396,15 @@ class Interp:
             return self._call(fn.attrs["__call__"], args, kwargs, node)
         raise Unsupported(f"call of {fn!r}")
 
+    def default_value(self, clo, dnode):
+        """S-PY: a default argument value is ONE object per function definition, shared by all calls that omit the argument (evaluated here at
+        the first such call of the path instead of at definition time; a mutable default keeps what earlier calls did to it)"""
+        cache = self.ctx.ghost.setdefault("__default_values__", {})
+        k = (id(clo.node), id(dnode), id(clo.env))
+        if k not in cache:
+            cache[k] = (self.eval(dnode, Env(clo.env, None), clo.module), dnode, clo.env)  # (node and defining environment are kept alive with the entry)
+        return cache[k][0]
+
     def bind(self, clo, args, kwargs):
         a = clo.node.args
         env = Env(clo.env, clo.node)
@@ -1393,7 +1423,7 @@ class Interp:
             else:
                 di = i - (len(params) - nd)
                 if di >= 0:
-                    env.vars[p] = self.eval(defaults[di], Env(clo.env, None), clo.module)
+                    env.vars[p] = self.default_value(clo, defaults[di])
                 else:
                     raise PyRaise("TypeError", (f"missing argument {p}",))
         extra = args[len(params) :]
@@ -1405,7 +1435,7 @@ class Interp:
             if p.arg in kwargs:
                 env.vars[p.arg] = kwargs.pop(p.arg)
             elif d is not None:
-                env.vars[p.arg] = self.eval(d, Env(clo.env, None), clo.module)
+                env.vars[p.arg] = self.default_value(clo, d)
             else:
                 raise PyRaise("TypeError", (f"missing kw-only {p.arg}",))
         if a.kwarg:
